@@ -205,7 +205,7 @@ struct Stats {
       if (n % 997 == 0) samples[(n / 997) % sample_cap] = s;
     }
   }
-  void flush() {
+  void flush(bool with_seen = true) {
     if (outdir.empty()) return;
     std::string o = "{\n";
     o += " \"evaluations\": " + std::to_string(evaluations) + ",\n";
@@ -232,10 +232,12 @@ struct Stats {
     o += "\n ]\n}\n";
     write_file(outdir + "/counters.json.tmp", o);
     rename((outdir + "/counters.json.tmp").c_str(), (outdir + "/counters.json").c_str());
-    std::string sb;
-    sb.reserve(seen.size() * 8);
-    for (uint64_t h : seen) sb.append((const char *)&h, 8);
-    write_file(outdir + "/seen.bin", sb);
+    if (with_seen) {
+      std::string sb;
+      sb.reserve(seen.size() * 8);
+      for (uint64_t h : seen) sb.append((const char *)&h, 8);
+      write_file(outdir + "/seen.bin", sb);
+    }
     since_flush = 0;
   }
   void tick() {
